@@ -1,4 +1,5 @@
 import Ymq.Props.C06
+import Ymq.Props.C06Word
 #print axioms Ymq.C06.mg2adicInv_spec
 #print axioms Ymq.C06.miller_iff_sprp
 #print axioms Ymq.C06.isprime64_complete
@@ -11,3 +12,11 @@ import Ymq.Props.C06
 #print axioms Ymq.C06.pseudoprime_eq_isprime64
 #print axioms Ymq.C06.pseudoprime_total
 #print axioms Ymq.C06.pseudoprime_oversize
+#print axioms Ymq.C06.pseudoprime_word_eq
+#print axioms Ymq.C06.pseudoprime_word_total
+#print axioms Ymq.C06.pseudoprime_complete_word
+#print axioms Ymq.C06.pseudoprime_word_even
+#print axioms Ymq.C06.pseudoprime_below_two
+#print axioms Ymq.C06.pseudoprime_word_eq_isprime64
+#print axioms Ymq.C06.pseudoprime_word_oversize
+#print axioms Ymq.C06.pseudoprime_word_iff_sprp_partial
